@@ -187,7 +187,7 @@ fn v311_or_v5(b: bool) -> Version {
 // =================================================================== A. timers, close ordering
 // client sends PINGREQ (v3.1.1): response timer armed iff configured, PINGREQ timer re-armed by priority
 #[kani::proof]
-#[kani::unwind(7)]
+#[kani::unwind(2)]
 fn st_send_pingreq_v311_client() {
     let mut c = fam_client_connected(Version::V3_1_1);
     let pre = tm_of(&c);
@@ -212,7 +212,7 @@ fn st_send_pingreq_v311_client() {
 }
 
 #[kani::proof]
-#[kani::unwind(7)]
+#[kani::unwind(2)]
 fn st_send_pingreq_v5_client() {
     let mut c = fam_client_connected(Version::V5_0);
     let pre = tm_of(&c);
@@ -235,7 +235,7 @@ fn st_send_pingreq_v5_client() {
 
 // DISCONNECT sent: armed timers cancelled (only those), then the packet, then the close request
 #[kani::proof]
-#[kani::unwind(7)]
+#[kani::unwind(2)]
 fn st_send_disconnect_v311_client() {
     let mut c = fam_client_connected(Version::V3_1_1);
     let pre = tm_of(&c);
@@ -252,7 +252,7 @@ fn st_send_disconnect_v311_client() {
 }
 
 #[kani::proof]
-#[kani::unwind(7)]
+#[kani::unwind(2)]
 fn st_send_disconnect_v5_server() {
     let mut c = fam_server_connected(Version::V5_0);
     let pre = tm_of(&c);
@@ -274,7 +274,7 @@ fn st_send_disconnect_v5_server() {
 
 // the three timer expiries on an established connection (fired only when armed)
 #[kani::proof]
-#[kani::unwind(7)]
+#[kani::unwind(2)]
 fn st_timer_fired_v311_client() {
     let mut c = fam_client_connected(Version::V3_1_1);
     let k: u8 = kani::any();
@@ -305,7 +305,7 @@ fn st_timer_fired_v311_client() {
 }
 
 #[kani::proof]
-#[kani::unwind(7)]
+#[kani::unwind(2)]
 fn st_timer_fired_v5_client_pingresp() {
     set_detail(true);
     let mut c = fam_client_connected(Version::V5_0);
@@ -323,7 +323,7 @@ fn st_timer_fired_v5_client_pingresp() {
 }
 
 #[kani::proof]
-#[kani::unwind(7)]
+#[kani::unwind(2)]
 fn st_timer_fired_server_pingreq_recv() {
     let v5: bool = kani::any();
     let mut c = fam_server_connected(v311_or_v5(v5));
@@ -345,7 +345,7 @@ fn st_timer_fired_server_pingreq_recv() {
 
 // transport reported closed, from any status with symbolic leftovers
 #[kani::proof]
-#[kani::unwind(7)]
+#[kani::unwind(2)]
 fn st_notify_closed_any() {
     let v5: bool = kani::any();
     let mut c = AC::new(v311_or_v5(v5));
@@ -412,7 +412,7 @@ fn st_notify_closed_any() {
 
 // PINGRESP received by a client cancels the response timer iff armed
 #[kani::proof]
-#[kani::unwind(7)]
+#[kani::unwind(2)]
 fn st_recv_pingresp_client() {
     let v5: bool = kani::any();
     let mut c = fam_client_connected(v311_or_v5(v5));
@@ -459,13 +459,17 @@ fn fam_inflight<R: RoleType>(c: &mut GenericConnection<R, u16>, i: u16, j: u16, 
 
 // PUBACK received (v3.1.1 client, persistent session): exactly the matching exchange completes
 #[kani::proof]
-#[kani::unwind(7)]
+#[kani::unwind(2)]
 #[kani::stub(core::str::from_utf8, utf8_model)]
 fn st_recv_puback_v311_persistent() {
     let mut c = fam_client_connected(Version::V3_1_1);
     let i: u16 = kani::any();
     let j: u16 = kani::any();
-    fam_inflight(&mut c, i, j, true);
+    // QoS1 id i in flight and stored; QoS2 id j awaiting PUBREC (its stored copy is left out to keep the
+    // store at one entry: the handler only looks at the id it is given)
+    fam_inflight(&mut c, i, j, false);
+    c.need_store = true;
+    c.store.add(mk_pub311(1, i, true).try_into().unwrap()).unwrap();
     let pre = tm_of(&c);
     let r: u16 = kani::any();
     kani::cover!(r == i, "matching PUBACK");
@@ -485,15 +489,15 @@ fn st_recv_puback_v311_persistent() {
         assert!(count(&ev, is_close) == 1, "[C19] protocol error on v3.1.1 requests a close");
     }
     // the QoS2 exchange is never touched by a PUBACK
-    assert!(c.pid_man.is_used_id(j) && c.pid_pubrec.contains(&j) && sth::has(&c.store, j), "[C06] PUBACK never completes a QoS2 exchange");
-    assert!(sth::len(&c.store) == 1 + (r != i) as usize, "[C06] store size after PUBACK");
+    assert!(c.pid_man.is_used_id(j) && c.pid_pubrec.contains(&j), "[C06] PUBACK never completes a QoS2 exchange");
+    assert!(sth::len(&c.store) == (r != i) as usize, "[C06] store size after PUBACK");
     core::mem::forget(ev);
     core::mem::forget(c);
 }
 
 // PUBACK received (v5.0 client, Receive Maximum M): counter arithmetic at full width
 #[kani::proof]
-#[kani::unwind(7)]
+#[kani::unwind(2)]
 #[kani::stub(core::str::from_utf8, utf8_model)]
 fn st_recv_puback_v5_flow() {
     let mut c = fam_client_connected(Version::V5_0);
@@ -532,7 +536,7 @@ fn st_recv_puback_v5_flow() {
 
 // PUBREC received (v5.0): success keeps the id and the slot (PUBREL follows), an error code ends the exchange
 #[kani::proof]
-#[kani::unwind(7)]
+#[kani::unwind(2)]
 #[kani::stub(core::str::from_utf8, utf8_model)]
 fn st_recv_pubrec_v5_flow() {
     let mut c = fam_client_connected(Version::V5_0);
@@ -581,7 +585,7 @@ fn st_recv_pubrec_v5_flow() {
 
 // PUBCOMP received (both versions): completes exactly the exchange waiting for it
 #[kani::proof]
-#[kani::unwind(7)]
+#[kani::unwind(2)]
 #[kani::stub(core::str::from_utf8, utf8_model)]
 fn st_recv_pubcomp_flow() {
     let v5: bool = kani::any();
@@ -625,7 +629,7 @@ fn st_recv_pubcomp_flow() {
 
 // QoS1 PUBLISH sent on a persistent v3.1.1 session: stored with DUP, id held, sent at once
 #[kani::proof]
-#[kani::unwind(7)]
+#[kani::unwind(2)]
 #[kani::stub(core::str::from_utf8, utf8_model)]
 fn st_send_publish_v311_q1_persistent() {
     let mut c = fam_client_connected(Version::V3_1_1);
@@ -653,7 +657,7 @@ fn st_send_publish_v311_q1_persistent() {
 
 // QoS1/2 PUBLISH sent on v5.0 against Receive Maximum M (not stored): refused exactly at the limit
 #[kani::proof]
-#[kani::unwind(7)]
+#[kani::unwind(2)]
 #[kani::stub(core::str::from_utf8, utf8_model)]
 fn st_send_publish_v5_flow() {
     let mut c = fam_client_connected(Version::V5_0);
@@ -688,7 +692,7 @@ fn st_send_publish_v5_flow() {
 
 // =================================================================== C07 inbound QoS2
 #[kani::proof]
-#[kani::unwind(7)]
+#[kani::unwind(2)]
 #[kani::stub(core::str::from_utf8, utf8_model)]
 fn st_recv_publish_q2_v311() {
     let mut c = fam_client_connected(Version::V3_1_1);
@@ -719,7 +723,7 @@ fn st_recv_publish_q2_v311() {
 }
 
 #[kani::proof]
-#[kani::unwind(7)]
+#[kani::unwind(2)]
 #[kani::stub(core::str::from_utf8, utf8_model)]
 fn st_recv_pubrel_flow() {
     let v5: bool = kani::any();
@@ -754,7 +758,7 @@ fn mk_connect_v311(ka: u16, clean: bool) -> v3_1_1::Connect {
 }
 
 #[kani::proof]
-#[kani::unwind(7)]
+#[kani::unwind(2)]
 #[kani::stub(core::str::from_utf8, utf8_model)]
 fn st_reuse_client_v311_clean_connect() {
     // reused object: disconnected after a persistent first connection, leftovers symbolic
@@ -810,7 +814,7 @@ fn spec_remote_may_send(role_client: bool, role_server: bool, v5: bool, t: u8) -
 }
 
 #[kani::proof]
-#[kani::unwind(3)]
+#[kani::unwind(2)]
 fn c17_can_receive_table() {
     let t: u8 = kani::any();
     let v5: bool = kani::any();
@@ -861,13 +865,13 @@ fn dispatch_client(v5: bool) {
     core::mem::forget(c);
 }
 #[kani::proof]
-#[kani::unwind(7)]
+#[kani::unwind(2)]
 #[kani::stub(core::str::from_utf8, utf8_model)]
 fn st_dispatch_client_v311() {
     dispatch_client(false)
 }
 #[kani::proof]
-#[kani::unwind(7)]
+#[kani::unwind(2)]
 #[kani::stub(core::str::from_utf8, utf8_model)]
 fn st_dispatch_client_v5() {
     dispatch_client(true)
@@ -897,13 +901,13 @@ fn dispatch_server(v5: bool) {
     core::mem::forget(c);
 }
 #[kani::proof]
-#[kani::unwind(7)]
+#[kani::unwind(2)]
 #[kani::stub(core::str::from_utf8, utf8_model)]
 fn st_dispatch_server_v311() {
     dispatch_server(false)
 }
 #[kani::proof]
-#[kani::unwind(7)]
+#[kani::unwind(2)]
 #[kani::stub(core::str::from_utf8, utf8_model)]
 fn st_dispatch_server_v5() {
     dispatch_server(true)
@@ -911,7 +915,7 @@ fn st_dispatch_server_v5() {
 
 // undetermined server: the first packet decides the version
 #[kani::proof]
-#[kani::unwind(7)]
+#[kani::unwind(2)]
 #[kani::stub(core::str::from_utf8, utf8_model)]
 fn st_undetermined_first_packet() {
     let mut c = SC::new(Version::Undetermined);
@@ -953,7 +957,7 @@ pub(crate) mod c11 {
 
 // =================================================================== C08 id-management calls are total
 #[kani::proof]
-#[kani::unwind(7)]
+#[kani::unwind(2)]
 fn st_id_calls_total() {
     let mut c = CC::new(Version::V3_1_1);
     let a: u16 = kani::any();
@@ -992,7 +996,7 @@ fn st_id_calls_total() {
 
 // =================================================================== C14 Maximum Packet Size
 #[kani::proof]
-#[kani::unwind(6)]
+#[kani::unwind(2)]
 fn c14_total_size_kernel() {
     let rl: u32 = kani::any();
     kani::assume(rl <= 268_435_455);
@@ -1012,7 +1016,7 @@ fn c14_total_size_kernel() {
 
 // v5.0 PUBACK sent under a peer limit L around its size (4 bytes)
 #[kani::proof]
-#[kani::unwind(7)]
+#[kani::unwind(2)]
 fn st_send_puback_v5_limit() {
     set_detail(true);
     let mut c = fam_server_connected(Version::V5_0);
@@ -1046,7 +1050,7 @@ fn st_send_puback_v5_limit() {
 
 // v5.0 QoS1 PUBLISH (size 9) under a limit around its size: refusal must release the identifier
 #[kani::proof]
-#[kani::unwind(7)]
+#[kani::unwind(2)]
 #[kani::stub(core::str::from_utf8, utf8_model)]
 fn st_send_publish_v5_limit() {
     set_detail(true);
@@ -1077,7 +1081,7 @@ fn st_send_publish_v5_limit() {
 
 // automatic topic-alias mapping must not push a PUBLISH over the peer's limit
 #[kani::proof]
-#[kani::unwind(7)]
+#[kani::unwind(2)]
 #[kani::stub(core::str::from_utf8, utf8_model)]
 fn st_send_publish_v5_automap_limit() {
     set_detail(true);
@@ -1116,7 +1120,7 @@ fn st_send_publish_v5_automap_limit() {
 
 // inbound: a frame larger than the locally announced maximum is answered with DISCONNECT 0x95 and not delivered
 #[kani::proof]
-#[kani::unwind(7)]
+#[kani::unwind(2)]
 #[kani::stub(core::str::from_utf8, utf8_model)]
 fn st_recv_packet_too_large() {
     set_detail(true);
@@ -1151,7 +1155,7 @@ fn mk_pubrel311(id: u16) -> v3_1_1::GenericPubrel<u16> {
 
 // CONNACK (v3.1.1) received while connecting with a stored QoS1 PUBLISH and a stored PUBREL
 #[kani::proof]
-#[kani::unwind(7)]
+#[kani::unwind(2)]
 #[kani::stub(core::str::from_utf8, utf8_model)]
 fn st_recv_connack_v311_resume() {
     set_detail(true);
@@ -1196,7 +1200,7 @@ fn st_recv_connack_v311_resume() {
 
 // restore_packets into a fresh object: wait sets, ids, order
 #[kani::proof]
-#[kani::unwind(7)]
+#[kani::unwind(2)]
 #[kani::stub(core::str::from_utf8, utf8_model)]
 fn st_restore_packets_v311() {
     let mut c = CC::new(Version::V3_1_1);
@@ -1222,7 +1226,7 @@ fn st_restore_packets_v311() {
 
 // malformed export: the same identifier twice (different kinds)
 #[kani::proof]
-#[kani::unwind(7)]
+#[kani::unwind(2)]
 #[kani::stub(core::str::from_utf8, utf8_model)]
 fn st_restore_packets_duplicate_id() {
     let mut c = CC::new(Version::V3_1_1);
@@ -1240,7 +1244,7 @@ fn st_restore_packets_duplicate_id() {
 
 // handled-id set export / restore round trip
 #[kani::proof]
-#[kani::unwind(7)]
+#[kani::unwind(2)]
 fn st_handled_export_restore() {
     let mut c = CC::new(Version::V3_1_1);
     let h: u16 = kani::any();
@@ -1260,7 +1264,7 @@ fn st_handled_export_restore() {
 
 // =================================================================== server receives CONNECT (C05, C10, C15)
 #[kani::proof]
-#[kani::unwind(7)]
+#[kani::unwind(2)]
 #[kani::stub(core::str::from_utf8, utf8_model)]
 fn st_recv_connect_v311_server() {
     // a disconnected server object that served a connection before: connection-scoped leftovers symbolic
@@ -1289,7 +1293,7 @@ fn st_recv_connect_v311_server() {
 
 // v5.0 CONNECT carrying Topic Alias Maximum (all u16 values incl. 0)
 #[kani::proof]
-#[kani::unwind(7)]
+#[kani::unwind(2)]
 #[kani::stub(core::str::from_utf8, utf8_model)]
 fn st_recv_connect_v5_server_tam() {
     let mut c = SC::new(Version::V5_0);
@@ -1353,13 +1357,13 @@ fn publish_never_dropped(v5: bool) {
     core::mem::forget(c);
 }
 #[kani::proof]
-#[kani::unwind(7)]
+#[kani::unwind(2)]
 #[kani::stub(core::str::from_utf8, utf8_model)]
 fn st_send_publish_v311_never_dropped() {
     publish_never_dropped(false)
 }
 #[kani::proof]
-#[kani::unwind(7)]
+#[kani::unwind(2)]
 #[kani::stub(core::str::from_utf8, utf8_model)]
 fn st_send_publish_v5_never_dropped() {
     publish_never_dropped(true)
@@ -1367,7 +1371,7 @@ fn st_send_publish_v5_never_dropped() {
 
 // the application erases a stored PUBLISH: slot freed, id released, only that packet
 #[kani::proof]
-#[kani::unwind(7)]
+#[kani::unwind(2)]
 #[kani::stub(core::str::from_utf8, utf8_model)]
 fn st_erase_stored_publish_v5() {
     let mut c = fam_client_connected(Version::V5_0);
@@ -1410,7 +1414,7 @@ fn st_erase_stored_publish_v5() {
 
 // =================================================================== C07: PUBREC sent by the application (v5.0)
 #[kani::proof]
-#[kani::unwind(7)]
+#[kani::unwind(2)]
 fn st_send_pubrec_v5_handled() {
     let mut c = fam_server_connected(Version::V5_0);
     let h: u16 = kani::any();
@@ -1465,19 +1469,19 @@ fn recv_framing_error(v5: bool) {
     core::mem::forget(c);
 }
 #[kani::proof]
-#[kani::unwind(8)]
+#[kani::unwind(2)]
 fn st_recv_framing_error_v311() {
     recv_framing_error(false)
 }
 #[kani::proof]
-#[kani::unwind(8)]
+#[kani::unwind(2)]
 fn st_recv_framing_error_v5() {
     recv_framing_error(true)
 }
 
 // two back-to-back packets in one buffer: each recv() call handles exactly one
 #[kani::proof]
-#[kani::unwind(8)]
+#[kani::unwind(2)]
 fn st_recv_two_packets_one_buffer() {
     let mut c = fam_client_connected(Version::V3_1_1);
     c.pingresp_recv_set = false;
@@ -1523,21 +1527,24 @@ fn byte_of(k: u8) -> u8 {
 }
 
 /// v5.0 QoS0 PUBLISH with topic byte `t` (0 = empty topic) and Topic Alias property `alias`
+/// (built through the public builder: parsing a property block is the XL part of v5 receive steps)
 fn mk_pub5_alias(t: u8, alias: u16) -> Option<v5_0::GenericPublish<u16>> {
+    let ta = crate::mqtt::packet::TopicAlias::new(alias).ok()?;
+    let props = alloc::vec![Property::TopicAlias(ta)];
+    let pl = [0x55u8];
+    let b = v5_0::GenericPublish::<u16>::builder().qos(Qos::AtMostOnce).payload(&pl[..]).props(props);
     if t == 0 {
-        let body: [u8; 7] = [0, 0, 3, 0x23, (alias >> 8) as u8, alias as u8, 0x55];
-        let arc: crate::mqtt::common::Arc<[u8]> = crate::mqtt::common::Arc::from(&body[..]);
-        v5_0::GenericPublish::<u16>::parse(0, arc).ok().map(|x| x.0)
+        b.build().ok()
     } else {
-        let body: [u8; 8] = [0, 1, t, 3, 0x23, (alias >> 8) as u8, alias as u8, 0x55];
-        let arc: crate::mqtt::common::Arc<[u8]> = crate::mqtt::common::Arc::from(&body[..]);
-        v5_0::GenericPublish::<u16>::parse(0, arc).ok().map(|x| x.0)
+        let tb = [t];
+        let topic = unsafe { core::str::from_utf8_unchecked(&tb[..]) };
+        b.topic_name(topic).ok()?.build().ok()
     }
 }
 
 // manual alias on a PUBLISH that carries its topic: (re)binds the alias on both sides
 #[kani::proof]
-#[kani::unwind(7)]
+#[kani::unwind(2)]
 #[kani::stub(core::str::from_utf8, utf8_model)]
 fn st_send_publish_v5_manual_alias_bind() {
     set_detail(true);
@@ -1590,7 +1597,7 @@ fn st_send_publish_v5_manual_alias_bind() {
 
 // empty topic + alias: only sent for an alias bound on this connection; auto-replace uses a live binding
 #[kani::proof]
-#[kani::unwind(7)]
+#[kani::unwind(2)]
 #[kani::stub(core::str::from_utf8, utf8_model)]
 fn st_send_publish_v5_alias_resolve() {
     set_detail(true);
@@ -1649,7 +1656,7 @@ fn st_send_publish_v5_alias_resolve() {
 
 // receive side: aliased PUBLISH delivered with the bound topic or rejected as Topic Alias invalid
 #[kani::proof]
-#[kani::unwind(7)]
+#[kani::unwind(2)]
 #[kani::stub(core::str::from_utf8, utf8_model)]
 fn st_recv_publish_v5_alias() {
     set_detail(true);
@@ -1701,7 +1708,7 @@ fn st_recv_publish_v5_alias() {
 
 // v5.0 CONNECT without properties received by a server (keep-alive arithmetic at full width)
 #[kani::proof]
-#[kani::unwind(7)]
+#[kani::unwind(2)]
 #[kani::stub(core::str::from_utf8, utf8_model)]
 fn st_recv_connect_v5_server() {
     let mut c = SC::new(Version::V5_0);
@@ -1728,7 +1735,7 @@ fn st_recv_connect_v5_server() {
 
 // restore_packets, v5.0 packets
 #[kani::proof]
-#[kani::unwind(7)]
+#[kani::unwind(2)]
 #[kani::stub(core::str::from_utf8, utf8_model)]
 fn st_restore_packets_v5() {
     let mut c = CC::new(Version::V5_0);
@@ -1751,7 +1758,7 @@ fn st_restore_packets_v5() {
 
 // send_stored under a peer limit: oversize stored packets (PUBLISH and PUBREL alike) are dropped and released
 #[kani::proof]
-#[kani::unwind(7)]
+#[kani::unwind(2)]
 #[kani::stub(core::str::from_utf8, utf8_model)]
 fn st_send_stored_limit_v5() {
     set_detail(true);
@@ -1792,7 +1799,7 @@ fn st_send_stored_limit_v5() {
 
 // PUBREL sent by the application: connected (sent, PUBCOMP awaited) or queued on a persistent session while not connected
 #[kani::proof]
-#[kani::unwind(7)]
+#[kani::unwind(2)]
 fn st_send_pubrel_states_v311() {
     let mut c = CC::new(Version::V3_1_1);
     c.is_client = true;
@@ -1830,7 +1837,7 @@ fn st_send_pubrel_states_v311() {
 
 // =================================================================== C12: retransmitted stored packets count; inbound limit
 #[kani::proof]
-#[kani::unwind(7)]
+#[kani::unwind(2)]
 #[kani::stub(core::str::from_utf8, utf8_model)]
 fn st_send_connack_v5_resume_count() {
     set_detail(true);
@@ -1869,7 +1876,7 @@ fn st_send_connack_v5_resume_count() {
 }
 
 #[kani::proof]
-#[kani::unwind(7)]
+#[kani::unwind(2)]
 #[kani::stub(core::str::from_utf8, utf8_model)]
 fn st_recv_publish_v5_recv_max() {
     set_detail(true);
